@@ -4,6 +4,7 @@ package c01
 import (
 	"bytes"
 	"fmt"
+	"strings"
 	"hash/crc32"
 
 	"github.com/cloudwego/dynamicgo/thrift"
@@ -889,6 +890,59 @@ func (c *ctx) famMany() {
 						}
 						if len(pns) > 0 && pns[0].Node.IsEmpty() {
 							c.viol("Node."+api, trig, "non-error", "paths %v do not fit a %s: nil error and empty nodes (indistinguishable from an absent element)", w, k)
+						}
+					})
+				}
+			}
+		}
+		// structs: one request that MIXES kinds: valid field-id paths around paths of other kinds whose length / number
+		// equals the id of a present field (a name as long as the id, Index(id), a string key as long as the id)
+		if p.V.T == tbin.STRUCT && len(ch) >= 1 {
+			first, last := ch[0], ch[len(ch)-1]
+			var strays []generic.Path
+			for _, x := range ch {
+				if id := int(x.PE.ID); x.PE.K == 'f' && id > 0 && id <= 40 {
+					strays = append(strays, generic.NewPathFieldName(strings.Repeat("n", id)), generic.NewPathIndex(id), generic.NewPathStrKey(strings.Repeat("k", id)), generic.NewPathIntKey(id))
+				}
+			}
+			for si, stray := range strays {
+				for _, api := range []string{"GetMany", "GetTree", "Fields"} {
+					stray, api := stray, api
+					trig := fmt.Sprintf("%s,field-ids-mixed-with-a-path-of-another-kind", k)
+					_ = si
+					c.guard("Node."+api, trig, func() {
+						pns := []generic.PathNode{{Path: first.PE.Path()}, {Path: stray}, {Path: last.PE.Path()}}
+						valid := []int{0, 2}
+						if len(ch) == 1 {
+							pns, valid = pns[:2], []int{0} // (the same path twice in one request is not a meaningful request)
+						}
+						var err error
+						switch api {
+						case "GetMany":
+							err = pn.GetMany(pns, &generic.Options{})
+						case "Fields":
+							err = pn.Fields(pns, &generic.Options{})
+						default:
+							tree := generic.PathNode{Node: pn, Next: pns}
+							err = pn.GetTree(&tree, &generic.Options{})
+							pns = tree.Next
+						}
+						if err != nil {
+							return // refusing the whole request is fine
+						}
+						if !pns[1].Node.IsEmpty() && !pns[1].Node.IsError() {
+							c.viol("Node."+api, trig, "non-error", "path %v does not address a field, yet a node of type %v was returned for it", stray, pns[1].Node.Type())
+						}
+						for _, i := range valid {
+							want := first.V
+							if i == 2 {
+								want = last.V
+							}
+							if pns[i].Node.IsEmpty() {
+								c.viol("Node."+api, trig, "present-not-returned", "item %d (%v): empty node, want %s", i, pns[i].Path, want)
+							} else {
+								c.checkNode("Node."+api, trig, pns[i].Node, want)
+							}
 						}
 					})
 				}
